@@ -139,7 +139,8 @@ def job_output(Cn, rank, timeout_ms):
     inst = "EspiritCalib._output(C=%d,rank=%d)" % (Cn, rank)
 
     def post(r):
-        with core.functional_witnesses(), core.spec_side():
+        # definedness obligations of the code (division by |first coil|) are kept: they must follow from the precondition
+        with core.functional_witnesses():
             return _post(r)
 
     def _post(r):
@@ -163,9 +164,13 @@ def job_output(Cn, rank, timeout_ms):
         e_in = eig_in.elem(tuple(vr) + (z3.IntVal(0), z3.IntVal(0))).value()
         e_out = eig.elem((z3.IntVal(0),) + tuple(v)).value()
         out = [mps.elem((z3.IntVal(c),) + tuple(v)).value() for c in range(Cn)]
-        obs.append(("C17:returned-eigenvalue==alg.max_eig", bx, z3.And(e_out.re == e_in.re, e_out.im == 0)))
-        a0 = core.sym_sqrt(Sym(_abs2(m[0])))
         pre = [_abs2(m[0]) != 0]
+        # the precondition at this voxel is a fact for the code's own definedness obligations generated below
+        obs.append(("@fact", [], z3.And(*bx)))          # v is an arbitrary voxel of the grid
+        obs.append(("@fact", [], pre[0]))
+        obs.append(("C17:returned-eigenvalue==alg.max_eig", bx, z3.And(e_out.re == e_in.re, e_out.im == 0)))
+        with core.spec_side():
+            a0 = core.sym_sqrt(Sym(_abs2(m[0])))
         obs.append(("C17:first-coil-real-and>=0", bx + pre, z3.And(out[0].im == 0, out[0].re >= 0)))
         keep = e_in.re > crop.t
         for c in range(Cn):
